@@ -78,16 +78,121 @@ def hemi_env(h):
     return env
 
 
+class _QEnv(dict):
+    """witness values of the quantifier looked up by the LAST component of a name (parameters.k0, p.k0, k0 ...)"""
+    def _k(self, name):
+        return name.split('.')[-1].rstrip('_') if isinstance(name, str) else name
+
+    def __contains__(self, name):
+        return dict.__contains__(self, self._k(name))
+
+    def __getitem__(self, name):
+        return dict.__getitem__(self, self._k(name))
+
+
+def check_rejections(fx, R, fns):
+    """D1 (E-STEP): a guard that throws (or aborts) inside the parameter functions and the conversions is evaluated on parameter sets and points of the quantifier: a set the quantifier names must not
+    be rejected - for it no projection exists at all."""
+    import math
+    from .. import mini
+    from .C20 import deep_unwrap
+    from ..tree import walk, sx, pp
+    DEG = math.pi / 180
+    wit = []
+    for k0 in (0.99, 0.995, 0.999, 0.9995, 0.99987734, 1.0):
+        for (la0, l1, l2, lo0) in ((46.5, 44.0, 49.0, 3.0), (-33.0, -25.0, -40.0, 20.0), (16.0, 15.0, 17.0, -100.0), (72.0, 65.0, 75.0, 150.0)):
+            for e_ in (0.0, 0.0818191910428, 0.1):
+                wit.append({'k0': k0, 'latitude0': la0 * DEG, 'latitude1': l1 * DEG, 'latitude2': l2 * DEG, 'longitude0': lo0 * DEG, 'x0': 700000.0, 'y0': 6600000.0, 'e': e_, 'a': 6378137.0,
+                            'e2': e_ * e_, 'b': 6378137.0 * math.sqrt(1 - e_ * e_), 'f': 1 - math.sqrt(1 - e_ * e_), 'latitude': (la0 + 3) * DEG, 'longitude': (lo0 - 12) * DEG, 'n': math.sin(la0 * DEG)})
+    for f in fns:
+        if f is None or f.get('body') is None:
+            continue
+        for x in walk(f['body']):
+            if not (isinstance(x, dict) and x.get('k') == 'If'):
+                continue
+            leaves = [y for arm in (x.get('t'), x.get('e')) if arm is not None for y in walk(arm) if isinstance(y, dict) and (y.get('k') == 'Throw' or (y.get('k') == 'Call' and (y.get('fn') or '').split('::')[-1] in ('abort', 'terminate', 'exit', 'quick_exit')))]
+            if not leaves:
+                continue
+            in_then = any(y in list(walk(x['t'])) for y in leaves)
+            cond = deep_unwrap(sx(x['c']))
+            inst = '%s:rejects[%s]' % (f['q'].split('(')[0].replace('romea::core::', ''), pp(x['c'])[:60])
+            hit = why = None
+            n_ = 0
+            for w in wit:
+                try:
+                    v_ = mini.Step(deep_unwrap).ev(cond, _QEnv(w))
+                except (mini.Unsupported, TypeError, KeyError) as u:
+                    why = str(u)[:120]
+                    break
+                n_ += 1
+                if bool(v_) == in_then:
+                    hit = hit or w
+            if why:
+                R.undecided('D1', inst, 'a guard that throws is not evaluable on the parameter sets of the quantifier: %s' % why)
+            elif hit:
+                R.violated('D1', '%s:rejects-quantifier' % f['q'].split('(')[0].replace('romea::core::', ''), 'the guard `%s` throws for a parameter set the quantifier names (k0 = %g, latitude0 = %.1f deg, eccentricity %g): '
+                           'no projection is produced for it at all - the scale on the tangent parallel, the origin and the inverse are not what the statement says for every k0 in [0.99, 1], every pair of standard '
+                           'parallels at 15..75 deg of either hemisphere and every eccentricity up to 0.1' % (pp(x['c'])[:120], hit['k0'], hit['latitude0'] / DEG, hit['e']), fx.rel(x.get('loc') or f['loc']), 'E-STEP')
+            else:
+                R.holds('D1', inst, 'the guard that throws is false on all %d parameter sets of the quantifier tried' % n_, fx.rel(x.get('loc') or f['loc']), 'E-STEP')
+
+
+def check_forwarding_overload(fx, R, g, name):
+    """D1: an additional overload of a conversion (another point type) must hand the point on field by field: latitude to latitude, longitude to longitude - through a factory, each argument must
+    land in the parameter of its own name."""
+    from .C14 import stmts_sx
+    from .C20 import deep_unwrap
+    from ..tree import walk, strip_casts
+    R.used(g)
+    inst = 'LambertConverter::%s(%s)' % (name, ', '.join((p_.get('t') or {}).get('s', '?').replace('const ', '').replace('romea::core::', '').rstrip(' &') for p_ in g['params']))
+    st = [s_ for s_ in stmts_sx(g) if s_ != ('expr', 0)]
+    pn = [p_['name'] for p_ in g['params']]
+    if not (len(st) == 1 and st[0][0] == 'return' and isinstance(st[0][1], tuple) and st[0][1][0] == '.' + name and len(st[0][1]) == 3):
+        R.undecided('D1', inst + ':forwarding', 'not a single forwarding call of %s: %s' % (name, st[:2]))
+        return
+    arg = deep_unwrap(st[0][1][2])
+    if arg in pn:
+        R.holds('D1', inst + ':forwarding', 'hands its argument on unchanged', fx.rel(g['loc']), 'E-SIB')
+        return
+    call = next((x for x in walk(g['body']) if isinstance(x, dict) and x.get('k') == 'Call' and x.get('inrepo') and x.get('pnames') and isinstance(arg, tuple) and (x.get('m') or (x.get('fn') or '').split('::')[-1]) == arg[0]), None)
+    if call is None or len(call.get('pnames', [])) != len(arg) - 1:
+        R.undecided('D1', inst + ':forwarding', 'forwarded argument %s is not a factory call with named parameters' % (arg,))
+        return
+    wrong = []
+    for pname, a in zip(call['pnames'], arg[1:]):
+        fld = a.split('.')[-1] if isinstance(a, str) and '.' in a and a.split('.')[0] in pn else None
+        if fld is None:
+            R.undecided('D1', inst + ':forwarding', 'argument %s of %s is not a field of the parameter' % (a, arg[0]))
+            return
+        if fld != pname:
+            wrong.append((pname, a))
+    if wrong:
+        R.violated('D1', 'LambertConverter::%s:forwarding-overload' % name, '%s builds the point it forwards with %s(%s): the parameter `%s` of the factory receives `%s` - latitude and longitude are exchanged, so for this '
+                   'point type the origin no longer maps to (x0, y0) and the inverse does not return the point (the base-class overload is no longer chosen for it: overload resolution prefers the exact match)' % (
+                       inst, arg[0], ', '.join(str(a_) for a_ in arg[1:]), wrong[0][0], wrong[0][1]), fx.rel(g['loc']), 'E-SIB')
+    else:
+        R.holds('D1', inst + ':forwarding', 'every field reaches the factory parameter of its own name', fx.rel(g['loc']), 'E-SIB')
+
+
 def run(fx, R, tier):
     fsec = [f for f in fx.fn(Q + 'computeProjectionParameters') if 'SecantProjectionParameters' in f['sig']]
     ftan = [f for f in fx.fn(Q + 'computeProjectionParameters') if 'TangentProjectionParameters' in f['sig']]
-    ffor, finv = fx.one(Q + 'toLambert'), fx.one(Q + 'toWGS84')
+    # the conversions proper take the 2-D geodetic fix / the projected point; other overloads must forward to them (judged below)
+    fors = [f for f in fx.fn(Q + 'toLambert') if len(f['params']) == 1 and 'WGS84Coordinates' in (f['params'][0].get('t') or {}).get('s', '')]
+    invs = [f for f in fx.fn(Q + 'toWGS84') if len(f['params']) == 1 and 'Matrix<double, 2, 1' in (f['params'][0].get('t') or {}).get('s', '')]
+    ffor = fors[0] if len(fors) == 1 else fx.one(Q + 'toLambert')
+    finv = invs[0] if len(invs) == 1 else fx.one(Q + 'toWGS84')
+    for (main_, nm_) in ((ffor, 'toLambert'), (finv, 'toWGS84')):
+        for g_ in fx.fn(Q + nm_):
+            if main_ is not None and g_ is not main_ and g_.get('body') is not None:
+                check_forwarding_overload(fx, R, g_, nm_)
     fiso, flat, fN = fx.one(Q + 'computeIsometricLatitude'), fx.one(Q + 'computeLatitude'), fx.one(Q + 'computeGrandeNormal')
     if len(fsec) != 1 or len(ftan) != 1 or None in (ffor, finv, fiso, flat, fN):
         R.undecided('D1', 'LambertConverter', 'anchor vanished (computeProjectionParameters x2, toLambert, toWGS84, computeIsometricLatitude, computeLatitude, computeGrandeNormal)')
         return
     fsec, ftan = fsec[0], ftan[0]
     R.used(fsec, ftan, ffor, finv, fiso, flat, fN)
+    check_rejections(fx, R, [fsec, ftan, ffor, finv, fiso, flat, fN] + [c_ for c_ in fx.functions.values() if c_.get('ctor') and c_.get('cls') == Q.rstrip(':') and c_.get('body') is not None])
     try:
         rsec, ssec = read(fx, fsec)
         rtan, stan = read(fx, ftan)
